@@ -23,6 +23,10 @@
 //!   `m` = `enable_memoization = true` in a HISTORY (single-query cases always run with memoisation on, as before);
 //!   `v<k>` = field vocabulary k (VOCS[k]; v0 = FIELDS): field i is VOCS[k][i] — v1 holds names that START WITH / CONTAIN
 //!   query keywords (NOTE, NOTIFY.Sent, NOT.Q, ORDER, ANDROID, trueCount, nullable, inStock)
+//! CALLER-OWNED UNDO FRAME (C10 part B): a cfg ending in `^r` / `^k` (`D3s1^r`, `I2s3v1^k`; single-query cases only) runs the query
+//! INSIDE an undo frame the caller opened on the facts after building them (`begin_undo_frame`), then the caller rolls its frame back
+//! (`^r`) or commits it (`^k`): the search's own frames are NESTED frames of the caller's. obs := the four fields of the query
+//! (undo depth observed while the caller's frame is still open: 1) + ` <facts after the caller closed its frame> <undo depth then>`.
 //! HISTORY on ONE engine: a 5th token `<step>@<step>@…`; the engine is built from cfg + rules, then the steps run in order
 //! (the base `<facts> <query>` is asked only where a `?` step says so):
 //!   `?` query (base facts, base query; fresh Facts every time) | `?<facts>?<query>` query with its own facts / goal
@@ -263,6 +267,8 @@ pub struct Case {
     pub memo: bool,
     /// `None`: a single query on a fresh engine (4-token case)
     pub steps: Option<Vec<Step>>,
+    /// caller-owned undo frame around the query: 0 none, 1 rolled back afterwards (`^r`), 2 committed (`^k`)
+    pub wrap: u8,
 }
 
 pub fn parse_cfg(t: &str) -> Option<Cfg> {
@@ -350,7 +356,16 @@ pub fn parse_case(case: &str) -> Option<Case> {
     if t.len() != 4 && t.len() != 5 {
         return None;
     }
-    let cfg = parse_cfg(t[0])?;
+    let (cfg_tok, wrap) = match t[0].split_once('^') {
+        Some((c, "r")) => (c, 1u8),
+        Some((c, "k")) => (c, 2u8),
+        Some(_) => return None,
+        None => (t[0], 0u8),
+    };
+    if wrap != 0 && t.len() == 5 {
+        return None;
+    }
+    let cfg = parse_cfg(cfg_tok)?;
     let nm = &VOCS[cfg.voc];
     let facts = parse_facts(t[1])?;
     let query = parse_query(t[2], nm)?;
@@ -382,6 +397,7 @@ pub fn parse_case(case: &str) -> Option<Case> {
         via_new: cfg.via_new,
         memo: cfg.memo,
         steps,
+        wrap,
     })
 }
 
@@ -423,12 +439,31 @@ fn cfg_is(e: &BackwardEngine, strategy: SearchStrategy, d: usize, ms: usize, mem
 }
 
 fn run_query(engine: &mut BackwardEngine, fs: &[(usize, Value)], q: &str, explain: bool, nm: &[&str; 11]) -> String {
+    run_query_wrapped(engine, fs, q, explain, nm, 0)
+}
+
+/// `wrap` != 0: the caller holds its own undo frame around the query and closes it afterwards (1 rollback, 2 commit)
+fn run_query_wrapped(engine: &mut BackwardEngine, fs: &[(usize, Value)], q: &str, explain: bool, nm: &[&str; 11], wrap: u8) -> String {
     let mut facts = Facts::new();
     for (k, v) in fs {
         facts.set(nm[*k], v.clone());
     }
+    if wrap == 0 {
+        return run_query_on(engine, &mut facts, q, explain, nm);
+    }
+    facts.begin_undo_frame();
+    let inner = run_query_on(engine, &mut facts, q, explain, nm);
+    if wrap == 1 {
+        facts.rollback_undo_frame();
+    } else {
+        facts.commit_undo_frame();
+    }
+    format!("{} {} {}", inner, show_facts_v(&facts, nm), facts.verif_undo_depth())
+}
+
+fn run_query_on(engine: &mut BackwardEngine, facts: &mut Facts, q: &str, explain: bool, nm: &[&str; 11]) -> String {
     if explain {
-        return match engine.explain_why(q, &mut facts) {
+        return match engine.explain_why(q, facts) {
             Ok(s) => {
                 let p = if s.starts_with(&format!("Goal '{}' is PROVABLE", q)) {
                     "1"
@@ -437,20 +472,20 @@ fn run_query(engine: &mut BackwardEngine, fs: &[(usize, Value)], q: &str, explai
                 } else {
                     "?"
                 };
-                format!("{} {} {} -", p, show_facts_v(&facts, nm), facts.verif_undo_depth())
+                format!("{} {} {} -", p, show_facts_v(facts, nm), facts.verif_undo_depth())
             }
-            Err(_) => format!("err {} {} -", show_facts_v(&facts, nm), facts.verif_undo_depth()),
+            Err(_) => format!("err {} {} -", show_facts_v(facts, nm), facts.verif_undo_depth()),
         };
     }
-    match engine.query(q, &mut facts) {
+    match engine.query(q, facts) {
         Ok(r) => format!(
             "{} {} {} {}",
             if r.provable { 1 } else { 0 },
-            show_facts_v(&facts, nm),
+            show_facts_v(facts, nm),
             facts.verif_undo_depth(),
             r.solutions.len()
         ),
-        Err(_) => format!("err {} {} 0", show_facts_v(&facts, nm), facts.verif_undo_depth()),
+        Err(_) => format!("err {} {} 0", show_facts_v(facts, nm), facts.verif_undo_depth()),
     }
 }
 
@@ -459,7 +494,7 @@ fn exec(case: &str) -> String {
     let nm = &VOCS[c.voc];
     let Some(steps) = &c.steps else {
         let mut engine = build_engine(&c, true);
-        return run_query(&mut engine, &c.facts, &c.query, false, nm);
+        return run_query_wrapped(&mut engine, &c.facts, &c.query, false, nm, c.wrap);
     };
     let mut engine = build_engine(&c, c.memo);
     let mut ok_cfg = cfg_is(&engine, c.strategy, c.max_depth, c.max_solutions, c.memo);
@@ -2026,7 +2061,78 @@ fn gen(rng: &mut Rng, n: usize, _tier: &str) -> Vec<String> {
             out.push(format!("{}{}s1v1 {} {}{} {}", strat, d, t[0], neg, t[1], t[2]));
         }
     }
+    caller_frame_family(rng, n, &mut out);
     out
+}
+
+/// C10 part B, second sentence on the real search: the frames the search begins / commits / rolls back are NESTED frames of a frame
+/// the CALLER may hold (what-if evaluation: begin; query; rollback). (a) constructive: chains of 1..3 levels whose proof derives new
+/// facts, overwrites an existing one and (optionally) appends / retracts, asked provable and not provable (underivable conjunct, wrong
+/// value, depth cut), under every strategy, max_solutions 1 and 3, rolled back and committed; (b) a sample of ALL single-query cases
+/// generated above (every family: horn, general, shapes, actions, negated, disabled, dead ends, keyword names), re-run inside a
+/// caller frame, rolled back (2 of 3) or committed. (Appended last: the cases above are what they were without this family.)
+fn caller_frame_family(rng: &mut Rng, n: usize, out: &mut Vec<String>) {
+    let base = out.len();
+    for i in 0..(n / 25).max(12) {
+        let levels = 1 + i % 3;
+        // F6 (seed) ⇒ F0 ⇒ F1 ⇒ F2; the rule concluding the goal also overwrites the seed-side fact F7 and may append / retract
+        let mut rules: Vec<String> = Vec::new();
+        let mut prev = "F6.eq.n1".to_string();
+        for l in 0..levels {
+            let extra = match rng.below(5) {
+                0 => "+F7:=n0",
+                1 => "+F7:=n0+F3<<n1",
+                2 => "+F7!",
+                3 => "+F5:=sx",
+                _ => "",
+            };
+            let cond = if l + 1 == levels && rng.chance(1, 3) { format!("&,{},F7.eq.n100", prev) } else { prev.clone() };
+            rules.push(format!("{}~F{}:=t{}", cond, l, extra));
+            prev = format!("F{}.eq.t", l);
+        }
+        let goal_field = levels - 1;
+        let query = match i % 4 {
+            3 => format!("F{}.eq.f", goal_field), // wrong value: the rules fire, the goal is not proved
+            _ => format!("F{}.eq.t", goal_field),
+        };
+        let facts = match i % 5 {
+            4 => "F7=n100", // seed missing: nothing fires
+            _ => "F6=n1,F7=n100",
+        };
+        if rng.chance(1, 2) {
+            rules.reverse();
+        }
+        for strat in ["D", "B", "I"] {
+            for ms in [1, 3] {
+                let d = if rng.chance(1, 5) { rng.below(levels as u64) } else { levels as u64 + rng.below(3) };
+                for wrap in ["^r", "^k"] {
+                    out.push(format!("{}{}s{}{} {} {} {}", strat, d, ms, wrap, facts, query, rules.join(";")));
+                }
+            }
+        }
+    }
+    for _ in 0..(n / 2).max(60) {
+        let c = out[rng.below(base as u64) as usize].clone();
+        let t: Vec<&str> = c.split(' ').collect();
+        if t.len() != 4 || t[0].contains('^') {
+            continue;
+        }
+        let wrap = if rng.chance(2, 3) { "^r" } else { "^k" };
+        // a deep search over many general rules can take the Lean model tens of seconds (some D6 cases above do): such a case is
+        // re-run at depth 4 (3 with 7 or more rules), which keeps its shape and bounds what this family adds to the run time
+        let mut cfg = t[0].to_string();
+        let nr = t[3].split(';').count();
+        if nr >= 3 {
+            let cap = if nr >= 7 { 3 } else { 4 };
+            let Some((d, rest)) = t[0][1..].split_once('s') else { continue };
+            match d.parse::<u64>() {
+                Ok(dn) if dn > cap && !t[0].starts_with('N') => cfg = format!("{}{}s{}", &t[0][..1], cap, rest),
+                Ok(dn) if dn > cap => continue,
+                _ => {}
+            }
+        }
+        out.push(format!("{}{} {} {} {}", cfg, wrap, t[1], t[2], t[3]));
+    }
 }
 
 fn shrink(case: &str) -> Vec<String> {
